@@ -632,7 +632,7 @@ static void run_program(void)
         running_pid = 0;
         fprintf(out, "{\"e\":\"Disp\",\"t\":%ld}\n", now());
         snap();
-        if (++guard > 5000) {
+        if (++guard > 400) {
             /* a valid but non-terminating program (e.g. processes restarting each other): stop observing */
             fprintf(out, "{\"e\":\"Runaway\"}\n{\"e\":\"EndProg\",\"id\":%ld}\n", P.id);
             fflush(out);
